@@ -227,6 +227,44 @@ func (em *emitter) addressNonLocalStructSelector(structIndex int, localStructReg
 	}
 }
 
+// nonLocalStructField reports whether expr is a chain of one or more field
+// selectors, with no pointer indirections, on a non-local struct variable, as
+// 'v.a.b'. If so, it returns the expression of the variable and the index of
+// the selected field in the variable.
+func (em *emitter) nonLocalStructField(expr ast.Expression) (ast.Expression, []int, bool) {
+	var path []int
+	for {
+		sel, ok := expr.(*ast.Selector)
+		if !ok {
+			return nil, nil, false
+		}
+		ti := em.ti(sel.Expr)
+		if ti == nil || ti.Type == nil || ti.Type.Kind() != reflect.Struct {
+			return nil, nil, false
+		}
+		field, ok := ti.Type.FieldByName(sel.Ident)
+		if !ok {
+			return nil, nil, false
+		}
+		// A promoted field can be reached through an embedded pointer.
+		typ := ti.Type
+		for _, i := range field.Index {
+			if typ.Kind() != reflect.Struct {
+				return nil, nil, false
+			}
+			typ = typ.Field(i).Type
+		}
+		path = append(append([]int{}, field.Index...), path...)
+		expr = sel.Expr
+		if ident, ok := expr.(*ast.Identifier); ok && em.fb.declaredInFunc(ident.Name) {
+			return nil, nil, false
+		}
+		if _, ok := em.varStore.nonLocalVarIndex(expr); ok {
+			return expr, path, true
+		}
+	}
+}
+
 // assign assigns value, with type valueType, to the address. If k is true
 // value is a constant otherwise is a register.
 func (a address) assign(k bool, value int8, valueType reflect.Type) {
